@@ -9,6 +9,6 @@ cp $W/SEEDED/README.md $D/agent_README.md
 python3 - "$D" "$PROP" "$NEEDS" "$RAN" <<'PY'
 import json,sys
 d,prop,needs,ran=sys.argv[1:5]
-json.dump({"breaks_property":prop,"needs_to_manifest":needs,"confirmed":"in the agent's scratch worktree: patch applies, full suite (401 tests + 68 doc tests) passes with it, demo fails with it and passes without it (tools/confirm_seeded.sh)","checks_run":ran,"base_commit":"aea29c2 (/repo HEAD with the fix: commits)"},open(d+"/meta.json","w"),indent=1)
+json.dump({"breaks_property":prop,"needs_to_manifest":needs,"confirmed":"in the agent's scratch worktree: patch applies, full suite (401 tests + 68 doc tests) passes with it, demo fails with it and passes without it (tools/confirm_seeded.sh)","checks_run":ran,"base_commit":"4c8b93f (final /repo HEAD)"},open(d+"/meta.json","w"),indent=1)
 PY
 echo kept $ID
